@@ -31,6 +31,7 @@ def main(argv=None):
   ap.add_argument("--start", type=int, default=0)
   ap.add_argument("--no-selftest", action="store_true")
   ap.add_argument("--no-evidence", action="store_true")
+  ap.add_argument("--no-shrink", action="store_true", help="development: report violations without minimising them")
   a = ap.parse_args(argv)
   pid = a.prop.upper()
   tier = a.tier if a.tier in TIERS else "quick"
@@ -75,8 +76,11 @@ def main(argv=None):
             % (s, str(rs[0]["violation"].get("detail"))[:300]))
       continue
     r = min(rs, key=lambda x: len(canon(x.get("plan", {}))))
-    plan, v, nex = runner.shrink(pid, r["plan"], r["violation"],
-                                 budget_s=cfg.get("shrink_s", 45))
+    if a.no_shrink:
+      plan, v, nex = r["plan"], r["violation"], 0
+    else:
+      plan, v, nex = runner.shrink(pid, r["plan"], r["violation"],
+                                   budget_s=cfg.get("shrink_s", 45))
     path = runner.write_replay(pid, plan, v, r["run_seed"], nex)
     print("VIOLATION property=%s replay=%s" % (pid, path))
     print("  signature: %s" % s)
